@@ -34,8 +34,8 @@ def run(chk):
                   "%s frame is %r T-states, documented %r" % (m, s.get("clocks_frame"), FRAME.get(m)))
         chk.check(s.get("interrupt_length") == 32, "T-TABLE/ZXSpecs/%s/interrupt_length" % m,
                   "%s INT pulse is %r T-states, documented 32" % (m, s.get("interrupt_length")))
-        int_active(chk, prog, names, m)
-        wait_internal(chk, prog, names, m)
+        inv = wait_internal(chk, prog, names, m) and step_ok(chk, prog, names, cg)
+        int_active(chk, prog, names, m, inv)
     writers(chk, prog, names, cg, fa)
     chk.floor("wait-internal-paths", 6)
     # the one writer of the frame clock outside the bus methods is the SZX Z80R chunk: the value it stores is the file's
@@ -52,7 +52,32 @@ def run(chk):
     return chk.finish(EXPL)
 
 
-def int_active(chk, prog, names, m):
+_STEP = {}
+
+
+def step_ok(chk, prog, names, cg):
+    """largest clk ever passed to wait_internal (T-BOUND over every call site) is at most one frame: together with
+    T-PAIR (FC' = FC+clk or FC+clk-frame, the latter iff FC+clk >= frame) that makes 'frame clock < frame length' an
+    invariant of every state reached by running the machine from reset."""
+    if "v" not in _STEP:
+        from . import c11
+        ab = c11.make_argbound(prog, names, cg)
+        S = ab.param(names.bus("wait_internal"), 1)
+        _STEP["v"] = S
+        chk.rule("T-BOUND", "largest clk passed to wait_internal over all call sites <= frame length (frame clock stays below the frame length)")
+        chk.check(isinstance(S, int) and S <= min(FRAME.values()), "T-BOUND/ZXController::wait_internal/clk",
+                  "a single wait of %s T-states can reach wait_internal: new_frame subtracts one frame only, so the frame clock "
+                  "can stay at or above the frame length" % (S,))
+        chk.count("step-call-sites", ab.sites)
+        chk.sample({"largest_wait": S})
+    S = _STEP["v"]
+    return isinstance(S, int) and S <= min(FRAME.values())
+
+
+def int_active(chk, prog, names, m, inv):
+    """inv: the frame clock is below the frame length in every state reached by running the machine (T-PAIR + T-BOUND
+    both discharged).  Then the INT line is compared over [0, frame) only - a form that drops the reduction modulo the
+    frame length is the same function there; otherwise over two frames."""
     import numpy as np
     w = Walker(prog)
     st = cc.controller_state(w, prog, names, m)
@@ -80,6 +105,12 @@ def int_active(chk, prog, names, m):
     chk.check(bool((cover == 1).all()), key + "/partition", "paths do not partition the clock domain")
     want = ((t.astype(np.int64) % FRAME[m]) < 32).astype(np.int64)
     diff = np.nonzero(got != want)[0]
+    if inv:
+        beyond = int((diff >= FRAME[m]).sum())
+        diff = diff[diff < FRAME[m]]
+        if beyond:
+            print("NOTE: int_active(%s) differs from 'T mod frame < 32' at %d clocks >= frame length, which no run reaches "
+                  "(frame clock < frame length is invariant: T-PAIR + T-BOUND); not compared" % (m, beyond))
     chk.check(len(diff) == 0, key, "INT line differs from 'T mod frame < 32' at %d clocks, e.g. T=%s" % (
         len(diff), int(diff[0]) if len(diff) else "-"))
     chk.count("int-rows", n)
@@ -145,7 +176,9 @@ def wait_internal(chk, prog, names, m):
         chk.check(len(sc) == 1 and (sc[0].args[1] is total), key + "/screen-gets-clock",
                   "screen.process_clocks is not called with the advanced frame clock: %s" % [(e.path, e.args[1:]) for e in sc])
     chk.check(seen == {True, False}, key + "/cases", "frame-end / no-frame-end cases missing: %s" % seen)
+    ok = seen == {True, False} and not any(key in v[0] for v in chk.violations)
     chk.sample({"machine": m, "paths": len(rs), "opaque": sorted(x.split("::")[-2] + "::" + x.split("::")[-1] for x in sub)})
+    return ok
 
 
 def writers(chk, prog, names, cg, fa):
